@@ -9,7 +9,7 @@
 (* lecturer numbers are non-decreasing along the projects and lecturer l    *)
 (* receives Spread(nl, np)[l] projects.                                     *)
 (***************************************************************************)
-EXTENDS MPGen, Json
+EXTENDS MPDefs, Json
 
 CONSTANTS MaxN, MaxTotal
 VARIABLES n, total, sp, phase
